@@ -51,3 +51,17 @@ Proof.
     + apply Z.ltb_ge in E. split; [exact Hb|]. intros t1 H1; inversion H1; subst; exact E.
   - split; [exact Hb | discriminate].
 Qed.
+
+(* how proxyproto.Listener.Accept derives the connection's timeout from the listener's ReadHeaderTimeout: verbatim (the
+   shape in the source, flag t_accept_timeout_verbatim), or - any other shape - possibly replacing "no limit" by a default *)
+Definition accept_timeout (verbatim : bool) (dflt : Z) (listener_timeout : Z) : Z :=
+  if verbatim then listener_timeout else if 0 <? listener_timeout then listener_timeout else dflt.
+
+Lemma accept_timeout_zero dflt lt : lt <= 0 -> accept_timeout true dflt lt <= 0.
+Proof. intros H. exact H. Qed.
+
+(* zero / unset means no deadline at all (unless the caller brings one) *)
+Lemma no_deadline_without_timeout timeout t0 : timeout <= 0 -> eff_deadline timeout None t0 = None.
+Proof.
+  intros H. unfold eff_deadline. replace (0 <? timeout) with false by (symmetry; apply Z.ltb_ge; exact H). reflexivity.
+Qed.
